@@ -31,6 +31,10 @@ var propTable = map[string]propMeta{
 		NotCovered: "SEN parser behaviour, writers and options, numbers; known findings: reserved words and leading signs are written bare"},
 	"C14": {Level: "other", Explanation: "jp.AppendString and Child.tokenOk verified with table lemmas over jp.jMap and jp.tokenMap.",
 		NotCovered: "parse(String(x)) == x, script and equation parentheses, evaluation equality"},
+	"C05": {Level: "other", Explanation: "Region contracts on Expr.Get ([]any data): index, slice (bounds normalisation, four loops) and union-index clauses against spec.NormIndex/SliceLo/SliceHi/SliceHiDown.",
+		NotCovered: "descent, wildcard, filters, child, gen/Indexed/reflect container kinds, result order across fragments"},
+	"C11": {Level: "other", Explanation: "Same region contracts as C05 (shared spec functions are the agreement point).",
+		NotCovered: "First/Has/Locate/Walk/GetNodes/FirstNode and non-[]any representations are not yet under contract"},
 	"C02": {Level: "other", Explanation: "Number accumulation contracts of gen.Number: exactness of the uint64 accumulation (no wrap-around for any digit count), no digit lost once the big buffer is in use, plain integers that fit int64 stay in the integer accumulator.",
 		NotCovered: "parsers' inline digit loops, AddFrac/AddExp/AsNum, strings and events not yet under contract"},
 }
